@@ -462,12 +462,7 @@ class C13(Property):
             ctx.notes.append("reload monitor 2 (reload during load): reload returned, live=%s" % r.get("live"))
         # 3. the last subscriber of a key closes while the key's watch goroutine is inside load(): with a setupWatch
         #    that creates a missing watcher, a watcher without listeners and without the loaded values stays behind
-        #    and the next subscriber joins it (finding C13/unmonitor-during-load-leaves-zombie-watcher,
-        #    pending/C13-unmonitor-zombie-watcher.diff); skipped and noted as long as the source has that shape
-        if getattr(self, "flags", {}).get("setup_creates"):
-            ctx.notes.append("unmonitor monitor skipped: setupWatch creates a watcher for an unmonitored key (finding "
-                             "C13/unmonitor-during-load-leaves-zombie-watcher, pending/C13-unmonitor-zombie-watcher.diff)")
-            return fails
+        #    and the next subscriber joins it (F32, repaired by aaae2e8)
         rc, out, rs = vlib.go_test_overlay("./core/discov", files, "TestVerifC13UnmonitorDuringLoad$", [], tag="c13rl3", timeout=120)
         if rc != 0 or len(rs) != 1:
             raise ExecError("c13 unmonitor monitor rc=%s: %s" % (rc, out[-1500:]))
